@@ -111,6 +111,7 @@ func ApplyChange(ctx context.Context, ds ipld.DAGService, nd *dag.ProtoNode, cs 
 // 1. two node's links number are greater than 0.
 // 2. both of two nodes are ProtoNode.
 // 3. both nodes carry the same Data.
+// 4. both nodes' CIDs have the same prefix (version, codec, hash function).
 // Otherwise, it compares the cid and emits a Mod change object.
 func Diff(ctx context.Context, ds ipld.DAGService, a, b ipld.Node) ([]*Change, error) {
 	if a.Cid() == b.Cid() {
@@ -124,8 +125,11 @@ func Diff(ctx context.Context, ds ipld.DAGService, a, b ipld.Node) ([]*Change, e
 	linksB := b.Links()
 
 	// Link changes cannot express a change of the node's own Data (e.g. a
-	// directory replaced by a file or vice versa): report the node as modified.
-	if !okA || !okB || (len(linksA) == 0 && len(linksB) == 0) || !bytes.Equal(cleanA.Data(), cleanB.Data()) {
+	// directory replaced by a file or vice versa) nor of the way its CID is
+	// built (CID version, hash function: applying link changes keeps the
+	// CID builder of a): report the node as modified.
+	if !okA || !okB || (len(linksA) == 0 && len(linksB) == 0) ||
+		!bytes.Equal(cleanA.Data(), cleanB.Data()) || a.Cid().Prefix() != b.Cid().Prefix() {
 		return []*Change{{Type: Mod, Before: a.Cid(), After: b.Cid()}}, nil
 	}
 
